@@ -63,3 +63,4 @@ CLAIM = dict(
                'unit table + exhaustive differential correspondence of the compiled model against the real prefix '
                'parser + independent declaration-based oracle'),
 )
+CLAIM["text"] += " shadowing_is_exact / shadowed_name_is_identifier: a parameter or where-variable registered as shadowing identifier turns exactly its own name into a plain identifier and leaves the reading of every other string — also of prefixed forms of a unit of that name — unchanged (the type checker's matching lookup was repaired in numbat 83b9c17)."
